@@ -332,6 +332,12 @@ def _run_unit(job):
         out["status"] = "undecided"
         out["reason"] = f"out of subset: {e}"
         out["trace"] = traceback.format_exc()[-1500:]
+    except z3.Z3Exception as e:
+        # an ill-sorted term (e.g. a float where the model of a callee expects an integer): the code does something the unit's value
+        # model has no typing for - undecided, not a crash of the checker
+        out["status"] = "undecided"
+        out["reason"] = f"out of subset: ill-sorted expression ({str(e)[:80]})"
+        out["trace"] = traceback.format_exc()[-1500:]
     except Exception as e:
         out["status"] = "error"
         out["reason"] = f"{type(e).__name__}: {e}"
